@@ -72,7 +72,7 @@ POD_TRAITS = ("bytemuck::pod::Pod", "bytemuck::anybitpattern::AnyBitPattern")
 MARKER_CTOR_TRAITS = ("bytemuck::zeroable::Zeroable", "bytemuck::pod::Pod", "bytemuck::anybitpattern::AnyBitPattern")
 
 
-def wf(ctx, config="all"):
+def wf(ctx, config="all", marker_generic=True):
     rep = Report("R-WF", "every concrete (BITS, LIMBS) pair in an alias or impl header satisfies LIMBS == ceil(BITS/64); "
                  "Pod/AnyBitPattern impls additionally BITS == 64*LIMBS; no marker trait that provides a safe "
                  "constructor is implemented generically over (BITS, LIMBS)")
@@ -106,7 +106,7 @@ def wf(ctx, config="all"):
                     rep.ok(k, where, "all bit patterns canonical")
             else:
                 rep.ok(k, where, "")
-        if tr in MARKER_CTOR_TRAITS and not pairs and ("Uint<BITS, LIMBS>" in i["self_s"] or "Bits<BITS, LIMBS>" in i["self_s"]):
+        if marker_generic and tr in MARKER_CTOR_TRAITS and not pairs and ("Uint<BITS, LIMBS>" in i["self_s"] or "Bits<BITS, LIMBS>" in i["self_s"]):
             k = "marker-generic:%s:%s" % (tr, i["self_s"].replace("crate::", ""))
             rep.violation(k, where, "unsafe impl %s for %s is generic over (BITS, LIMBS): its safe constructor "
                           "(e.g. Zeroable::zeroed()) yields a value of an ill-formed type such as Uint<64, 2> without "
